@@ -21,8 +21,19 @@ char *strncpy (char *d, const char *s, size_t n) {
 
 /* ORC_BACKEND: unset, or a heap copy (as _orc_getenv returns: strdup) of an arbitrary string of < 8 characters */
 char *g_env;   /* ghost: what the last _orc_getenv returned */
+/* C19 "the documented environment override": DOC_ENVVAR is the variable name that doc/running.xml documents for target
+ * selection (extracted by vlib/props/c19.py on every run) */
+#ifndef DOC_ENVVAR
+#define DOC_ENVVAR "ORC_TARGET"
+#endif
+int g_env_calls, g_doc_first, g_doc_set;
+static int same_name (const char *a, const char *b) { for (int i = 0; i < 24; i++) { if (a[i] != b[i]) return 0; if (a[i] == 0) return 1; } return 0; }
 char * _orc_getenv (const char *name) {
+  int is_doc = same_name (name, DOC_ENVVAR);
+  if (g_env_calls == 0) g_doc_first = is_doc;
+  g_env_calls++;
   if (nondet_bool()) { g_env = NULL; return NULL; }
+  if (is_doc) g_doc_set = 1;
   char *v = malloc(8); __CPROVER_assume(v != NULL); v[7] = 0; g_env = v; return v;
 }
 
@@ -228,12 +239,16 @@ void h_target_get_by_name(void) {
 OrcTarget * orc_target_get_default (void)
 __CPROVER_requires(n_targets >= 0 && n_targets <= NT)
 __CPROVER_requires(default_target == NULL || default_target->executable)
-__CPROVER_assigns(g_env)
+__CPROVER_requires(g_env_calls == 0 && g_doc_set == 0)
+__CPROVER_assigns(g_env, g_env_calls, g_doc_first, g_doc_set)
 __CPROVER_frees(g_env)
+/* the documented variable is consulted, first, and when it is set nothing else is asked */
+__CPROVER_ensures(g_env_calls >= 1 && g_doc_first == 1)
+__CPROVER_ensures(g_doc_set ==> g_env_calls == 1)
 __CPROVER_ensures(__CPROVER_return_value == NULL || __CPROVER_return_value->executable)
 __CPROVER_ensures(g_env == NULL ==> __CPROVER_return_value == default_target)
 __CPROVER_ensures(g_env == NULL || __CPROVER_was_freed(g_env));
-void h_target_get_default(void) { mk_targets(); orc_target_get_default(); REACH(); }
+void h_target_get_default(void) { mk_targets(); g_env_calls = 0; g_doc_set = 0; g_doc_first = 0; orc_target_get_default(); REACH(); }
 
 /* ================================================================ C20/C17: rule lookup is a pure function of the registries and the flags */
 #ifndef NRS
